@@ -5,7 +5,7 @@ tables), (b) a small crate that reads real objects as raw words (dynamic layout)
     render_layout.py <layout.jsonl> <out_dir>"""
 import json, os, sys
 
-BODY = {"zz": 11, "aa": 12, "mm": 13, "b1": 21, "a2": 22, "only": 31, "q": 41, "p": 42, "r": 43, "o": 44, "s": 45}
+BODY = {"zz": 11, "aa": 12, "mm": 13, "b1": 21, "a2": 22, "only": 31, "q": 41, "p": 42, "r": 43, "o": 44, "s": 45, "tb1": 51, "ta2": 61, "ta1": 62}
 
 
 def trait_src(name, methods):
